@@ -159,7 +159,7 @@ func Universe() []UVal {
 		{Name: "nkmaps", Go: []NKMap{{"k": 2}, {"k": 1}, {}}}, {Name: "anynkmaps", Go: []any{NKMap{"k": 2}, map[string]any{"k": 1}, NDict{"k": 0}}}, {Name: "ntitles", Go: []NTitle{"b", "a"}},
 		{Name: "embednil", Go: EmbedOuter{Name: "outer"}, Small: true}, {Name: "embednilptr", Go: &EmbedOuter{}}, {Name: "embedset", Go: EmbedOuter{EmbedInner: &EmbedInner{Count: 4}}},
 		{Name: "mapslicekeys", Go: yaml.MapSlice{{Key: []int{3, 1, 2}, Value: "slicekey"}, {Key: map[string]any{"a": 1}, Value: 2}, {Key: "a", Value: 3}, {Key: []string{"b", "a"}, Value: 4}}, Small: true},
-		{Name: "uintptr", Go: uintptr(4)},
+		{Name: "uintptr", Go: uintptr(7)},
 		{Name: "fn", Go: func() any { return 1 }},
 		{Name: "chan", Go: make(chan int)},
 		{Name: "complex", Go: complex(1, 2)},
